@@ -391,6 +391,8 @@ def shot_noise(img, method='poisson', seed=None):
         # REF: https://stackoverflow.com/a/33701974
         if np.min(img) < 0:
             raise ValueError('Counts must be positive')
+        if np.max(img) > 9.223372006484771e+18:
+            raise ValueError('Counts exceed max representable value')
         with np.errstate(divide='raise'):
             try:
                 img = np.asarray(rng.normal(loc=img, scale=np.sqrt(img)), dtype=int)
